@@ -80,22 +80,23 @@ Definition set (s : sstate) (t : thid) (x : st) : sstate :=
 (* parameters of one execution context *)
 Record ctx := { c_v3 : bool; c_inbound : bool; c_opt : N; c_flag : bool }.
 
-(* the follow-up of executing state c: from the generated table, or from the tape (head); in tape mode a
-   terminal state executed inbound has no follow-up (done.ExecuteInbound returns noOp) *)
+(* the follow-up of executing state c: a terminal state executed inbound has no follow-up
+   (done/abandoned return noOp; Spec.exec_terminal_b checks the generated table against this rule); otherwise from
+   the generated table, or from the tape (head) *)
 Definition exec1 (p : proto) (k : ctx) (c : st) (tape : list (option st)) : option st * list (option st) :=
-  if p_tape p then
-    if terminal p c && c_inbound k then (Some 0, tape)
-    else match tape with
-         | [] => (Some 0, [])
-         | x :: r => (x, r)
-         end
+  if terminal p c && c_inbound k then (Some 0, tape)
+  else if p_tape p then
+    match tape with
+    | [] => (Some 0, [])
+    | x :: r => (x, r)
+    end
   else (exec_tbl p c (c_v3 k) (c_inbound k) (c_opt k) (c_flag k), tape).
 
 (* handle's loop: (announced states, ok?, rest of tape).  fuel bounds the chain (the code would spin). *)
 Fixpoint chain (p : proto) (k : ctx) (fuel : nat) (c : st) (tape : list (option st))
   : list st * bool * list (option st) :=
   match fuel with
-  | O => ([c], false, tape)
+  | O => ([], false, tape)
   | S f =>
       match exec1 p k c tape with
       | (None, tape') => ([c], false, tape')                       (* Execute failed (events already sent) *)
